@@ -42,6 +42,9 @@ type c26Spec struct {
 	Blocks     []c26BlockSpec `json:"blocks"`
 	Unimported []int          `json:"unimported_children_of"` // spec indexes (or -1) that get a never-imported child header
 	Finalise   []int          `json:"finalise,omitempty"`     // group tree_finalised: spec indexes finalised in this order
+	// groups *_seq: only the first ImportFirst blocks are imported before the first lookup sweep (0 = all); the rest is
+	// imported afterwards (announcement imports = writers of the epoch-state locks after lookups have failed)
+	ImportFirst int `json:"import_first,omitempty"`
 }
 
 type c26World struct {
@@ -80,7 +83,8 @@ func c26ConfigData(tag int) *types.NextConfigDataV1 {
 	return &types.NextConfigDataV1{C1: uint64(tag) + 1, C2: uint64(tag) + 1000, SecondarySlots: byte(tag % 3)}
 }
 
-func buildC26World(spec *c26Spec) (w *c26World, closeFn func(), err error) {
+// newC26World creates the database, BlockState and EpochState of a case; the model tree holds only genesis.
+func newC26World(spec *c26Spec) (w *c26World, closeFn func(), err error) {
 	db, err := vNewDB()
 	if err != nil {
 		return nil, nil, err
@@ -104,46 +108,108 @@ func buildC26World(spec *c26Spec) (w *c26World, closeFn func(), err error) {
 	}
 	w = &c26World{bs: bs, es: es, tree: newVTree(), L: spec.L, gen: cfg}
 	w.tree.add(&vBlock{parent: -1, number: 0, header: genesis, hash: genesis.Hash(), added: true})
-	for i, sb := range spec.Blocks {
-		p := w.tree.blocks[sb.Parent+1]
-		var ed *types.NextEpochData
-		var cd *types.NextConfigDataV1
-		if sb.ED {
-			ed = c26EpochData(i + 1)
+	return w, closeFn, nil
+}
+
+// importBlock imports spec block i (all earlier spec blocks must have been imported): AddBlock, then what block
+// import does with the BABE consensus digests (dot/digest BlockImportHandler.handleConsensusDigest). ok=false: an
+// operation never returned (verdict recorded by the guard).
+func (w *c26World) importBlock(g *c26Guard, spec *c26Spec, i int) (ok bool, err error) {
+	sb := spec.Blocks[i]
+	p := w.tree.blocks[sb.Parent+1]
+	var ed *types.NextEpochData
+	var cd *types.NextConfigDataV1
+	if sb.ED {
+		ed = c26EpochData(i + 1)
+	}
+	if sb.CD {
+		cd = c26ConfigData(i + 1)
+	}
+	h, cds, err := vHeader(p.hash, p.number+1, sb.Slot, vHashOf("c26-root", uint64(i)), vHashOf("c26-ext", uint64(i)), sb.Primary, ed, cd)
+	if err != nil {
+		return true, err
+	}
+	blk := &types.Block{Header: *h, Body: types.Body{}}
+	if !g.do(fmt.Sprintf("AddBlock(b%d)", i+1), func() string {
+		err = w.bs.AddBlockWithArrivalTime(blk, vBaseTime.Add(time.Duration(i+1)*time.Second))
+		return c26Outcome(err)
+	}) {
+		return false, nil
+	}
+	if err != nil {
+		return true, fmt.Errorf("AddBlock spec block %d: %w", i, err)
+	}
+	w.tree.add(&vBlock{parent: sb.Parent + 1, number: p.number + 1, slot: sb.Slot, header: h, hash: h.Hash(), added: true,
+		epochData: ed, configData: cd})
+	for k, d := range cds {
+		kind := "NextEpochData"
+		if _, isED := mustDigestValue(d).(types.NextEpochData); !isED {
+			kind = "NextConfigData"
 		}
-		if sb.CD {
-			cd = c26ConfigData(i + 1)
+		d := d
+		if !g.do(fmt.Sprintf("HandleBABEDigest(b%d, %s)", i+1, kind), func() string {
+			err = w.es.HandleBABEDigest(h, d)
+			return c26Outcome(err)
+		}) {
+			return false, nil
 		}
-		h, cds, err := vHeader(p.hash, p.number+1, sb.Slot, vHashOf("c26-root", uint64(i)), vHashOf("c26-ext", uint64(i)), sb.Primary, ed, cd)
 		if err != nil {
-			closeFn()
-			return nil, nil, err
+			return true, fmt.Errorf("HandleBABEDigest spec block %d digest %d: %w", i, k, err)
 		}
-		blk := &types.Block{Header: *h, Body: types.Body{}}
-		if err = bs.AddBlockWithArrivalTime(blk, vBaseTime.Add(time.Duration(i+1)*time.Second)); err != nil {
-			closeFn()
-			return nil, nil, fmt.Errorf("AddBlock spec block %d: %w", i, err)
-		}
-		w.tree.add(&vBlock{parent: sb.Parent + 1, number: p.number + 1, slot: sb.Slot, header: h, hash: h.Hash(), added: true,
-			epochData: ed, configData: cd})
-		// what block import does (dot/digest BlockImportHandler.handleConsensusDigest)
-		for _, d := range cds {
-			if err = es.HandleBABEDigest(h, d); err != nil {
-				closeFn()
-				return nil, nil, fmt.Errorf("HandleBABEDigest spec block %d: %w", i, err)
-			}
+		if g.failedLookups > 0 {
+			g.writers++
+			g.c.Count("announcement_imports_after_failed_lookup", 1)
 		}
 	}
+	return true, nil
+}
+
+func mustDigestValue(d types.BabeConsensusDigest) any {
+	v, err := d.Value()
+	if err != nil {
+		return nil
+	}
+	return v
+}
+
+// addLoose builds the never-imported child headers whose parent has been imported.
+func (w *c26World) addLoose(spec *c26Spec) error {
+	w.loose = nil
 	for j, pi := range spec.Unimported {
+		if pi+1 >= len(w.tree.blocks) {
+			continue
+		}
 		p := w.tree.blocks[pi+1]
 		h, _, err := vHeader(p.hash, p.number+1, p.slot+1+uint64(j), vHashOf("c26-loose-root", uint64(j)), vHashOf("c26-loose", uint64(j)), true, nil, nil)
 		if err != nil {
-			closeFn()
-			return nil, nil, err
+			return err
 		}
 		w.loose = append(w.loose, &vBlock{idx: -1, parent: pi + 1, number: p.number + 1, slot: p.slot + 1 + uint64(j), header: h, hash: h.Hash()})
 	}
-	return w, closeFn, nil
+	return nil
+}
+
+// buildC26World imports the first n spec blocks (n < 0: all). ok=false: an operation never returned.
+func buildC26World(g *c26Guard, spec *c26Spec, n int) (w *c26World, closeFn func(), ok bool, err error) {
+	w, closeFn, err = newC26World(spec)
+	if err != nil {
+		return nil, nil, true, err
+	}
+	if n < 0 || n > len(spec.Blocks) {
+		n = len(spec.Blocks)
+	}
+	for i := 0; i < n; i++ {
+		ok, err = w.importBlock(g, spec, i)
+		if !ok || err != nil {
+			closeFn()
+			return nil, nil, ok, err
+		}
+	}
+	if err = w.addLoose(spec); err != nil {
+		closeFn()
+		return nil, nil, true, err
+	}
+	return w, closeFn, true, nil
 }
 
 // announcers returns the model blocks on the ancestry (inclusive) of tree index `from`
@@ -201,11 +267,16 @@ func (w *c26World) whoAnnouncedCD(d *types.ConfigData) string {
 
 // mode: 0 = only lookups in which every ancestry search the model predicts has a match ("ordinary"),
 //
-//	1 = only lookups in which some ancestry search finds nothing on the block's own ancestry ("miss").
+//	1 = only lookups in which some ancestry search finds nothing on the block's own ancestry ("miss"),
+//	2 = both (groups *_seq).
 func runC26(c *vcommon.Case, spec *c26Spec, mode int) {
-	w, closeFn, err := buildC26World(spec)
+	g := newC26Guard(c, spec)
+	w, closeFn, ok, err := buildC26World(g, spec, -1)
 	if err != nil {
 		c.Inconclusive("cannot build world: " + err.Error())
+		return
+	}
+	if !ok {
 		return
 	}
 	defer closeFn()
@@ -218,15 +289,53 @@ func runC26(c *vcommon.Case, spec *c26Spec, mode int) {
 		}
 		return m
 	}
+	g.base = func() map[string]any { return wit(nil) }
+	lookups, ok := w.sweep(c, g, mode, wit)
+	if !ok {
+		return
+	}
+	c.Count("lookups", lookups)
+	if forks := w.forks(); forks > 0 && lookups > 0 {
+		c.Count("trees_with_forks", 1)
+		c.Distinct(w.tree.shape() + "|" + w.annPattern())
+	}
+	c.Sample(map[string]any{"tree": w.tree.describe(), "epoch_length": w.L, "lookups": lookups, "mode": mode})
+}
 
-	var maxE uint64
+func (w *c26World) forks() int {
 	forks := 0
-	for x, b := range w.tree.blocks {
-		if e := w.epochOf(x); e > maxE {
-			maxE = e
-		}
+	for _, b := range w.tree.blocks {
 		if len(b.children) > 1 {
 			forks++
+		}
+	}
+	return forks
+}
+
+func (w *c26World) annPattern() string {
+	ann := ""
+	for _, b := range w.tree.blocks {
+		switch {
+		case b.epochData != nil && b.configData != nil:
+			ann += "B"
+		case b.epochData != nil:
+			ann += "E"
+		case b.configData != nil:
+			ann += "C"
+		default:
+			ann += "-"
+		}
+	}
+	return ann
+}
+
+// sweep queries every imported block, every loose header and genesis for every epoch (no finalisation has happened
+// yet). ok=false: the case must stop (violation recorded, or an operation never returned).
+func (w *c26World) sweep(c *vcommon.Case, g *c26Guard, mode int, wit func(map[string]any) map[string]any) (n int, cont bool) {
+	var maxE uint64
+	for x := range w.tree.blocks {
+		if e := w.epochOf(x); e > maxE {
+			maxE = e
 		}
 	}
 	if maxE > 5 {
@@ -234,9 +343,16 @@ func runC26(c *vcommon.Case, spec *c26Spec, mode int) {
 	}
 
 	// supporting oracle: the epoch a block belongs to is computed from its own chain's first block
-	if mode == 0 {
+	if mode != 1 {
 		for x, b := range w.tree.blocks {
-			got, err := w.es.GetEpochForBlock(b.header)
+			var got uint64
+			var err error
+			if !g.do(fmt.Sprintf("GetEpochForBlock(b%d)", x), func() string {
+				got, err = w.es.GetEpochForBlock(b.header)
+				return c26Outcome(err)
+			}) {
+				return
+			}
 			c.Eval(1)
 			if err != nil || got != w.epochOf(x) {
 				c.Violation("epoch_for_block", fmt.Sprintf("GetEpochForBlock(b%d)=%d err=%v, own chain gives %d", x, got, err, w.epochOf(x)),
@@ -271,16 +387,27 @@ func runC26(c *vcommon.Case, spec *c26Spec, mode int) {
 			S := w.announcers(tg.from, e, true)
 			searched := w.anyAnnouncer(e, true) // findAncestor runs iff some fork announced for e
 			miss := searched && len(S) == 0
-			if (mode == 1) == miss {
+			if mode == 2 || (mode == 1) == miss {
 				lookups++
 				verifFindAncestorSteps.Store(0)
 				verifFindAncestorBudget.Store(vC26StepBudget)
 				var got *types.EpochDataRaw
 				var gerr error
+				var exceeded bool
+				var steps int64
 				// fresh copy of the header: the lookup must not depend on a cached hash
 				hd := *tg.header
-				exceeded, steps := vRecoverBudget(func() { got, gerr = w.es.GetEpochDataRaw(e, &hd) })
+				if !g.do(fmt.Sprintf("GetEpochDataRaw(%d, %s)", e, tg.name), func() string {
+					exceeded, steps = vRecoverBudget(func() { got, gerr = w.es.GetEpochDataRaw(e, &hd) })
+					return c26Outcome(gerr)
+				}) {
+					return
+				}
 				verifFindAncestorBudget.Store(0)
+				g.lookedUp(gerr)
+				if g.writers > 0 {
+					c.Count("lookups_after_writer_after_failed_lookup", 1)
+				}
 				c.Eval(1)
 				c.Count("epoch_data_lookups", 1)
 				if tg.loose {
@@ -351,14 +478,21 @@ func runC26(c *vcommon.Case, spec *c26Spec, mode int) {
 					cfgMiss = true // an ancestry search with no match happens before the answer is found
 				}
 			}
-			if (mode == 1) == cfgMiss {
+			if mode == 2 || (mode == 1) == cfgMiss {
 				lookups++
 				verifFindAncestorSteps.Store(0)
 				verifFindAncestorBudget.Store(vC26StepBudget)
 				var got *types.ConfigData
 				var gerr error
+				var exceeded bool
+				var steps int64
 				hd := *tg.header
-				exceeded, steps := vRecoverBudget(func() { got, gerr = w.es.GetConfigData(e, &hd) })
+				if !g.do(fmt.Sprintf("GetConfigData(%d, %s)", e, tg.name), func() string {
+					exceeded, steps = vRecoverBudget(func() { got, gerr = w.es.GetConfigData(e, &hd) })
+					return c26Outcome(gerr)
+				}) {
+					return
+				}
 				verifFindAncestorBudget.Store(0)
 				c.Eval(1)
 				c.Count("config_lookups", 1)
@@ -401,25 +535,7 @@ func runC26(c *vcommon.Case, spec *c26Spec, mode int) {
 			}
 		}
 	}
-	c.Count("lookups", lookups)
-	if forks > 0 && lookups > 0 {
-		c.Count("trees_with_forks", 1)
-		ann := ""
-		for _, b := range w.tree.blocks {
-			switch {
-			case b.epochData != nil && b.configData != nil:
-				ann += "B"
-			case b.epochData != nil:
-				ann += "E"
-			case b.configData != nil:
-				ann += "C"
-			default:
-				ann += "-"
-			}
-		}
-		c.Distinct(w.tree.shape() + "|" + ann)
-	}
-	c.Sample(map[string]any{"tree": w.tree.describe(), "epoch_length": w.L, "lookups": lookups, "mode": mode})
+	return lookups, true
 }
 
 // runC26Finalised: lookups after finalisation. The tree is BABE-conformant (the first block of every epoch, and
@@ -434,13 +550,25 @@ func runC26(c *vcommon.Case, spec *c26Spec, mode int) {
 const vC26Repeats = 32
 
 func runC26Finalised(c *vcommon.Case, spec *c26Spec, picks []int) {
-	w, closeFn, err := buildC26World(spec)
+	g := newC26Guard(c, spec)
+	w, closeFn, ok, err := buildC26World(g, spec, -1)
 	if err != nil {
 		c.Inconclusive("cannot build world: " + err.Error())
 		return
 	}
+	if !ok {
+		return
+	}
 	defer closeFn()
 	defer verifFindAncestorBudget.Store(0)
+	if w.finaliseRounds(c, g, spec, picks) {
+		c.Distinct("fin|" + w.tree.shape() + fmt.Sprint(picks, spec.Finalise))
+	}
+}
+
+// finaliseRounds finalises blocks (spec.Finalise, else one block per pick) and queries every surviving block after
+// each finalisation. cont=false: the case must stop (violation recorded, or an operation never returned).
+func (w *c26World) finaliseRounds(c *vcommon.Case, g *c26Guard, spec *c26Spec, picks []int) (cont bool) {
 	head := 0
 	var finLog []string
 	wit := func(extra map[string]any) map[string]any {
@@ -450,6 +578,7 @@ func runC26Finalised(c *vcommon.Case, spec *c26Spec, picks []int) {
 		}
 		return m
 	}
+	g.base = func() map[string]any { return wit(nil) }
 	// abandoned announcers still held by the in-memory maps for an epoch
 	prunedIn := func(epochData bool, epoch uint64) int {
 		n := 0
@@ -458,14 +587,23 @@ func runC26Finalised(c *vcommon.Case, spec *c26Spec, picks []int) {
 				n++
 			}
 		}
+		// TryRLock: the harness goroutine itself must never park on an epoch-state lock; when the lock cannot be
+		// had (somebody left it write-locked / a writer is queued) the maximum repetition count is used and the
+		// guarded lookup that follows decides.
 		if epochData {
-			w.es.nextEpochDataLock.RLock()
+			if !w.es.nextEpochDataLock.TryRLock() {
+				c.Count("harness_probe_found_epoch_lock_busy", 1)
+				return 1
+			}
 			for h := range w.es.nextEpochData[epoch] {
 				count(h)
 			}
 			w.es.nextEpochDataLock.RUnlock()
 		} else {
-			w.es.nextConfigDataLock.RLock()
+			if !w.es.nextConfigDataLock.TryRLock() {
+				c.Count("harness_probe_found_epoch_lock_busy", 1)
+				return 1
+			}
 			for h := range w.es.nextConfigData[epoch] {
 				count(h)
 			}
@@ -495,12 +633,34 @@ func runC26Finalised(c *vcommon.Case, spec *c26Spec, picks []int) {
 			f = cands[picks[round]%len(cands)]
 		}
 		fb := w.tree.blocks[f]
-		if err := w.bs.SetFinalisedHash(fb.hash, uint64(round+1), 0); err != nil {
+		var err, e1, e2 error
+		if !g.do(fmt.Sprintf("SetFinalisedHash(b%d)", f), func() string {
+			err = w.bs.SetFinalisedHash(fb.hash, uint64(round+1), 0)
+			return c26Outcome(err)
+		}) {
+			return
+		}
+		if err != nil {
 			c.Inconclusive(fmt.Sprintf("SetFinalisedHash(b%d) failed: %v", f, err))
 			return
 		}
-		e1 := w.es.FinalizeBABENextEpochData(fb.header)
-		e2 := w.es.FinalizeBABENextConfigData(fb.header)
+		afterFailed := g.failedLookups > 0
+		if !g.do(fmt.Sprintf("FinalizeBABENextEpochData(b%d)", f), func() string {
+			e1 = w.es.FinalizeBABENextEpochData(fb.header)
+			return c26Outcome(e1)
+		}) {
+			return
+		}
+		if !g.do(fmt.Sprintf("FinalizeBABENextConfigData(b%d)", f), func() string {
+			e2 = w.es.FinalizeBABENextConfigData(fb.header)
+			return c26Outcome(e2)
+		}) {
+			return
+		}
+		if afterFailed {
+			g.writers++
+			c.Count("finalisations_after_failed_lookup", 1)
+		}
 		finLog = append(finLog, fmt.Sprintf("finalised b%d (#%d, epoch %d): FinalizeBABENextEpochData err=%v FinalizeBABENextConfigData err=%v",
 			f, fb.number, w.epochOf(f), e1, e2))
 		c.Count("finalisations", 1)
@@ -516,7 +676,14 @@ func runC26Finalised(c *vcommon.Case, spec *c26Spec, picks []int) {
 			if !w.tree.isAncestorOrEq(head, x) {
 				continue // finalised ancestors and abandoned forks are not queried
 			}
-			got, err := w.es.GetEpochForBlock(b.header)
+			var got uint64
+			var err error
+			if !g.do(fmt.Sprintf("GetEpochForBlock(b%d)", x), func() string {
+				got, err = w.es.GetEpochForBlock(b.header)
+				return c26Outcome(err)
+			}) {
+				return
+			}
 			c.Eval(1)
 			if err != nil || got != w.epochOf(x) {
 				c.Violation("epoch_for_block", fmt.Sprintf("after finalisation GetEpochForBlock(b%d)=%d err=%v, own chain gives %d", x, got, err, w.epochOf(x)),
@@ -536,9 +703,20 @@ func runC26Finalised(c *vcommon.Case, spec *c26Spec, picks []int) {
 					verifFindAncestorBudget.Store(vC26StepBudget)
 					var gd *types.EpochDataRaw
 					var gerr error
+					var exceeded bool
+					var steps int64
 					hd := *b.header
-					exceeded, steps := vRecoverBudget(func() { gd, gerr = w.es.GetEpochDataRaw(e, &hd) })
+					if !g.do(fmt.Sprintf("GetEpochDataRaw(%d, b%d)", e, x), func() string {
+						exceeded, steps = vRecoverBudget(func() { gd, gerr = w.es.GetEpochDataRaw(e, &hd) })
+						return c26Outcome(gerr)
+					}) {
+						return
+					}
 					verifFindAncestorBudget.Store(0)
+					g.lookedUp(gerr)
+					if g.writers > 0 {
+						c.Count("lookups_after_writer_after_failed_lookup", 1)
+					}
 					c.Eval(1)
 					c.Count("after_finalisation_epoch_data_lookups", 1)
 					if pruned >= 2 {
@@ -603,8 +781,15 @@ func runC26Finalised(c *vcommon.Case, spec *c26Spec, picks []int) {
 					verifFindAncestorBudget.Store(vC26StepBudget)
 					var gc *types.ConfigData
 					var gerr error
+					var exceeded bool
+					var steps int64
 					hd2 := *b.header
-					exceeded, steps := vRecoverBudget(func() { gc, gerr = w.es.GetConfigData(e, &hd2) })
+					if !g.do(fmt.Sprintf("GetConfigData(%d, b%d)", e, x), func() string {
+						exceeded, steps = vRecoverBudget(func() { gc, gerr = w.es.GetConfigData(e, &hd2) })
+						return c26Outcome(gerr)
+					}) {
+						return
+					}
 					verifFindAncestorBudget.Store(0)
 					c.Eval(1)
 					c.Count("after_finalisation_config_lookups", 1)
@@ -645,7 +830,143 @@ func runC26Finalised(c *vcommon.Case, spec *c26Spec, picks []int) {
 			}
 		}
 	}
-	c.Distinct("fin|" + w.tree.shape() + fmt.Sprint(picks, spec.Finalise))
+	return true
+}
+
+// runC26Seq (groups corpus_seq / tree_seq): lookups that FAIL, then writers of the epoch-state locks, then lookups again.
+//
+//	phase 1: the first spec.ImportFirst blocks are imported, every block is queried for every epoch (hits and misses);
+//	         the misses are the failed lookups (epoch announced nowhere / only by blocks off the ancestry)
+//	phase 2: the remaining blocks are imported (HandleBABEDigest -> storeBABENextEpochData / storeBABENextConfigData take
+//	         the write locks), on the same fork and on other forks; full sweep again with the same oracle
+//	phase 3: finalisation (SetFinalisedHash + FinalizeBABENextEpochData/ConfigData take the write locks) and the
+//	         post-finalisation sweep (conformant trees only)
+//
+// Every operation runs under the hang monitor (zz_verif_c26_hang_test.go): an error path of a lookup that keeps a read
+// lock makes the next writer, and then every lookup, park for ever => class deadlock.
+func runC26Seq(c *vcommon.Case, spec *c26Spec, picks []int) {
+	g := newC26Guard(c, spec)
+	n1 := spec.ImportFirst
+	if n1 <= 0 || n1 > len(spec.Blocks) {
+		n1 = len(spec.Blocks)
+	}
+	w, closeFn, ok, err := buildC26World(g, spec, n1)
+	if err != nil {
+		c.Inconclusive("cannot build world: " + err.Error())
+		return
+	}
+	if !ok {
+		return
+	}
+	defer closeFn()
+	defer verifFindAncestorBudget.Store(0)
+	phase := "phase 1: before the late imports"
+	wit := func(extra map[string]any) map[string]any {
+		m := map[string]any{"spec": spec, "tree": w.tree.describe(), "mode": 2, "phase": phase, "finalise_picks": picks}
+		for k, v := range extra {
+			m[k] = v
+		}
+		return m
+	}
+	g.base = func() map[string]any { return wit(nil) }
+	lookups, ok := w.sweep(c, g, 2, wit)
+	if !ok {
+		return
+	}
+	if g.failedLookups > 0 {
+		c.Count("seq_cases_with_failed_lookup_in_phase_1", 1)
+	}
+	if n1 < len(spec.Blocks) {
+		for i := n1; i < len(spec.Blocks); i++ {
+			ok, err = w.importBlock(g, spec, i)
+			if err != nil {
+				c.Inconclusive("late import: " + err.Error())
+				return
+			}
+			if !ok {
+				return
+			}
+		}
+		if err = w.addLoose(spec); err != nil {
+			c.Inconclusive("loose headers: " + err.Error())
+			return
+		}
+		phase = "phase 2: after the late imports"
+		l2, ok := w.sweep(c, g, 2, wit)
+		if !ok {
+			return
+		}
+		lookups += l2
+	}
+	c.Count("lookups", lookups)
+	if len(spec.Finalise) > 0 || len(picks) > 0 {
+		if !w.finaliseRounds(c, g, spec, picks) {
+			return
+		}
+	}
+	c.Count("seq_cases_completed", 1)
+	if w.forks() > 0 {
+		c.Distinct(fmt.Sprint("seq|", w.tree.shape(), "|", w.annPattern(), "|", n1, picks, spec.Finalise))
+	}
+	c.Sample(map[string]any{"tree": w.tree.describe(), "epoch_length": w.L, "import_first": n1, "finalise": spec.Finalise, "finalise_picks": picks,
+		"failed_lookups": g.failedLookups, "writers_after_failed_lookup": g.writers, "operations": g.nops})
+}
+
+// genC26SeqCase: conformant random tree + 1-2 finalisations / fan + finalisation of one fork / arbitrary tree without
+// finalisation; a random prefix of the blocks is imported before the first sweep.
+func genC26SeqCase(c *vcommon.Case) (spec *c26Spec, picks []int) {
+	switch c.Idx % 3 {
+	case 0:
+		spec = genC26Spec(c, true)
+		spec.Unimported = nil
+		picks = []int{c.R.Intn(1000)}
+		if c.R.Bool() {
+			picks = append(picks, c.R.Intn(1000))
+		}
+	case 1:
+		spec = genC26FanSpec(c)
+	default:
+		spec = genC26Spec(c, false)
+	}
+	n := len(spec.Blocks)
+	switch {
+	case c.R.Chance(1, 6):
+		spec.ImportFirst = n // the only writers are the finalisations
+	default:
+		spec.ImportFirst = c.R.Range(1, n-1)
+	}
+	return spec, picks
+}
+
+func c26SeqCorpus() []*c26Spec {
+	// 0: minimal witness of "failed lookup keeps the read lock" (seeded change, round 2): b1 - b2 imported; lookup (2, b1) fails
+	// (epoch 2 is announced only by b2, a descendant); then c2 (sibling of b2, announces epoch 2) and b3 are imported,
+	// everything is queried again, b2 is finalised, the survivors are queried.
+	s0 := &c26Spec{L: 2, Blocks: []c26BlockSpec{{Parent: -1, Slot: 100, ED: true, Primary: true}, {Parent: 0, Slot: 102, ED: true, CD: true, Primary: true},
+		{Parent: 0, Slot: 103, ED: true, Primary: true}, {Parent: 1, Slot: 103, Primary: true}}, ImportFirst: 2, Finalise: []int{1}}
+	// 1: a single chain, everything imported first: lookups for an epoch announced nowhere fail; the writers are two
+	// successive finalisations.
+	s1 := &c26Spec{L: 2, Blocks: []c26BlockSpec{{Parent: -1, Slot: 100, ED: true, CD: true, Primary: true}, {Parent: 0, Slot: 102, ED: true, Primary: true},
+		{Parent: 1, Slot: 104, ED: true, Primary: true}, {Parent: 2, Slot: 105, Primary: true}}, Finalise: []int{0, 1}}
+	// 2: corpus tree 0 (only the fork c2 announces for epoch 1; lookups from b2/b3 fail: other fork only), then a third
+	// fork d2 that announces epoch data + config for epoch 1 is imported; no finalisation.
+	s2 := &c26Spec{L: 3, Blocks: []c26BlockSpec{{Parent: -1, Slot: 100, Primary: true}, {Parent: 0, Slot: 101, Primary: true},
+		{Parent: 1, Slot: 102, Primary: true}, {Parent: 0, Slot: 101, ED: true, CD: true}, {Parent: 0, Slot: 102, ED: true, CD: true, Primary: true}},
+		ImportFirst: 4, Unimported: []int{2}}
+	// 3: fan of six forks; trunk + two forks are imported and queried, the four other forks arrive afterwards, fork 2 is finalised.
+	s3 := &c26Spec{L: 2, Blocks: []c26BlockSpec{{Parent: -1, Slot: 200, ED: true, CD: true, Primary: true}}}
+	for i := 0; i < 6; i++ {
+		off := uint64(i % 2)
+		s3.Blocks = append(s3.Blocks, c26BlockSpec{Parent: 0, Slot: 202 + off, ED: true, CD: true, Primary: true})
+		s3.Blocks = append(s3.Blocks, c26BlockSpec{Parent: len(s3.Blocks) - 1, Slot: 204 + off, ED: true, CD: i%2 == 0, Primary: true})
+	}
+	s3.ImportFirst = 5
+	s3.Finalise = []int{5}
+	// 4: the writer is on the SAME fork: lookup (2, b1) fails (announced nowhere), b2 (announces epoch 2) is imported,
+	// lookup (2, b2) must now succeed; b1 and b2 are finalised one after the other.
+	s4 := &c26Spec{L: 2, Blocks: []c26BlockSpec{{Parent: -1, Slot: 50, ED: true, Primary: true}, {Parent: 0, Slot: 52, ED: true, CD: true, Primary: true},
+		{Parent: 1, Slot: 53, Primary: true}}, ImportFirst: 1, Finalise: []int{0, 1}}
+	return []*c26Spec{s0, s1, s2, s3, s4}
 }
 
 // genC26FanSpec: a trunk in epoch 0 and 4-8 competing forks that each open epoch 1 and epoch 2 (so each
@@ -836,6 +1157,11 @@ func TestVerifC26(t *testing.T) {
 	r.Floor("after_finalisation_config_correct", 500)
 	r.Floor("lookups_with_2plus_abandoned_announcers_in_memory", 2000)
 	r.Floor("after_finalisation_epoch_data_correct_despite_abandoned_announcers", 500)
+	// writers of the epoch-state locks executed after a lookup of the same case had failed, and lookups after them
+	r.Floor("announcement_imports_after_failed_lookup", 150)
+	r.Floor("finalisations_after_failed_lookup", 100)
+	r.Floor("lookups_after_writer_after_failed_lookup", 2000)
+	r.Floor("failed_lookups_other_fork_only", 200)
 
 	corpus := c26FixedCorpus()
 	// ordinary lookups first: a real hang (uninstrumented build) kills the whole child, so the
@@ -858,5 +1184,12 @@ func TestVerifC26(t *testing.T) {
 			picks = append(picks, c.R.Intn(1000))
 		}
 		runC26Finalised(c, spec, picks)
+	})
+	// failed lookups, then writers (announcement imports on any fork, finalisations), then lookups again
+	seqCorpus := c26SeqCorpus()
+	r.Fixed("corpus_seq", len(seqCorpus), func(c *vcommon.Case) { runC26Seq(c, seqCorpus[c.Idx], nil) })
+	r.Cases("tree_seq", r.Scale(150), func(c *vcommon.Case) {
+		spec, picks := genC26SeqCase(c)
+		runC26Seq(c, spec, picks)
 	})
 }
